@@ -10,6 +10,23 @@ namespace XmppModel.Negotiate
 def FeatReady (tr : List Ev) : Prop :=
   ∃ f st rq fo sv r, Ev.neg f st rq fo sv r ∈ tr ∧ r.err = false ∧ has r.mask bReady = true
 
+/-- decidable form of `FeatReady` -/
+def featReadyB (tr : List Ev) : Bool :=
+  tr.any fun e => match e with
+    | .neg _ _ _ _ _ r => !r.err && has r.mask bReady
+    | _ => false
+
+theorem featReady_iff (tr : List Ev) : FeatReady tr ↔ featReadyB tr = true := by
+  unfold FeatReady featReadyB
+  rw [List.any_eq_true]
+  constructor
+  · rintro ⟨f, st, rq, fo, sv, r, hm, h1, h2⟩
+    exact ⟨_, hm, by simp [h1, h2]⟩
+  · rintro ⟨e, hm, he⟩
+    cases e <;> simp at he
+    rename_i f st rq fo sv r
+    exact ⟨f, st, rq, fo, sv, r, hm, he.1, he.2⟩
+
 theorem featReady_cons {tr : List Ev} (e : Ev) (h : FeatReady tr) : FeatReady (e :: tr) := by
   obtain ⟨f, st, rq, fo, sv, r, hm, h1, h2⟩ := h
   exact ⟨f, st, rq, fo, sv, r, List.mem_cons_of_mem _ hm, h1, h2⟩
